@@ -1,10 +1,10 @@
 //! World-level operations (fork, crash, fill, forge, boundary) and the run loop.
 
-use std::collections::BTreeMap;
+use std::collections::{BTreeMap, BTreeSet};
 
 use gecs::prelude::EntityAny;
 
-use crate::comps::{kind_has_drop, kind_has_id};
+use crate::comps::{kind_has_drop, kind_has_id, Obs};
 use crate::engine::*;
 use crate::model::*;
 use crate::ops::*;
@@ -375,6 +375,289 @@ impl<W: WorldSpec> Engine<W> {
         self.cur = dst;
         self.audit_step(true);
         self.cur = save;
+    }
+
+    /// `clone_from` with a scope (whole world, or one archetype through `Archetype::clone_from`)
+    /// and optionally one injected fault: the k-th `Clone::clone` panics (F2), or the k-th
+    /// `Drop::drop` of the overwritten content panics (F3).
+    ///
+    /// Without a fault every archetype in scope must afterwards answer exactly like the source's
+    /// (C13), every overwritten value must have been dropped once and every live source value
+    /// cloned once (C04). After a fault each archetype in scope must be, as a whole, one of: its
+    /// old self (old handles, old values, none of them dropped), the source's clone, or empty;
+    /// anything else is a torn state (C10). Values of the losing side may be leaked, never
+    /// dropped twice and never left readable after their destructor ran.
+    pub fn op_clone_from_x(&mut self, n: u8, a: Option<u8>, panic_at: Option<u32>, dp: Option<u32>) {
+        if !self.cur_alive() {
+            return;
+        }
+        let src = self.cur;
+        let targets: Vec<usize> = self.alive_worlds().into_iter().filter(|w| *w != src).collect();
+        if targets.is_empty() {
+            return;
+        }
+        let dst = targets[n as usize % targets.len()];
+        let na = W::archs().len();
+        let scope: Vec<usize> = match a {
+            Some(x) => vec![x as usize % na],
+            None => (0..na).collect(),
+        };
+        let old_cells: Vec<(u8, u32)> = self.ms[dst].ents.values().filter(|r| scope.contains(&r.arch)).flat_map(|r| r.cols.iter().map(|c| (c.kind, c.id))).filter(|(k, _)| kind_has_drop(*k)).collect();
+        let src_cells: u32 = self.ms[src].ents.values().filter(|r| scope.contains(&r.arch)).map(|r| r.cols.len() as u32).sum();
+        let n_old = old_cells.len() as u32;
+        let (panic_at, dp) = match (panic_at, dp) {
+            (Some(k), _) => (Some(k % (src_cells + 1)), None),
+            (None, Some(k)) => (None, Some(k % (n_old + 1))),
+            _ => (None, None),
+        };
+        let before: [rt::KindCounters; rt::NKINDS] = rt::with(|r| r.counters);
+        rt::arm(panic_at, dp, None, true);
+        let mut d = self.ws[dst].take().unwrap();
+        let res = {
+            let s = self.ws[src].as_ref().unwrap();
+            match a {
+                None => catch(|| d.clone_from(s)),
+                Some(_) => catch(|| W::archs()[scope[0]].clone_from_other(&mut d, s)),
+            }
+        };
+        self.ws[dst] = Some(d);
+        let clone_log = rt::with(|r| std::mem::take(&mut r.clone_log));
+        rt::disarm();
+        let after: [rt::KindCounters; rt::NKINDS] = rt::with(|r| r.counters);
+        rt::h(&[0xC1F1, dst as u64, a.map_or(99, |x| x as u64), res.is_ok() as u64]);
+        self.yields.push((self.step, 6, src_cells));
+        self.yields.push((self.step, 7, n_old));
+        self.interleavings.insert(mix(0xC1F, mix(a.map_or(99, |x| x as u64 % na as u64), mix(panic_at.map_or(99, |k| k.min(12)) as u64, dp.map_or(99, |k| k.min(12)) as u64))));
+        self.dm_cache.clear();
+        // source value -> its clone(s)
+        let mut by_src: BTreeMap<(u8, u32), u32> = BTreeMap::new();
+        for (k, s, nn) in &clone_log {
+            if kind_has_id(*k) && by_src.insert((*k, *s), *nn).is_some() {
+                vio("C04", "cloned-twice", format!("clone_from(): value kind={} id={} was cloned twice", k, s));
+                return;
+            }
+        }
+        // the source's rows of one archetype with ids mapped to the clones (None: not all were cloned)
+        let mapped_rows = |m: &Model, ai: usize, by_src: &BTreeMap<(u8, u32), u32>| -> Option<BTreeMap<Bits, Vec<Obs>>> {
+            let mut out = BTreeMap::new();
+            for b in m.by_arch[ai].iter() {
+                let mut cols = m.ents[b].cols.clone();
+                for c in cols.iter_mut() {
+                    if kind_has_id(c.kind) {
+                        c.id = *by_src.get(&(c.kind, c.id))?;
+                    }
+                }
+                out.insert(*b, cols);
+            }
+            Some(out)
+        };
+        match res {
+            Ok(()) => {
+                for (k, id) in &old_cells {
+                    if kind_has_id(*k) && rt::state(*k, *id) != VState::Dropped {
+                        vio("C04", "leak-on-clone-from", format!("clone_from: overwritten value kind={} id={} was not dropped", k, id));
+                        return;
+                    }
+                }
+                for k in 0..rt::NKINDS {
+                    if !kind_has_id(k as u8) && k != 6 && kind_has_drop(k as u8) {
+                        let want = old_cells.iter().filter(|(kk, _)| *kk as usize == k).count() as u64;
+                        let got = after[k].dropped - before[k].dropped;
+                        if got != want {
+                            vio("C04", "zero-sized-drop-count", format!("clone_from: kind {} dropped {} times, {} overwritten cells", k, got, want));
+                            return;
+                        }
+                    }
+                }
+                let mut used = 0usize;
+                for ai in scope.iter().copied() {
+                    match mapped_rows(&self.ms[src], ai, &by_src) {
+                        Some(rows) => {
+                            used += rows.values().flat_map(|c| c.iter()).filter(|c| kind_has_id(c.kind)).count();
+                            self.adopt_arch(dst, src, ai, Some(rows));
+                        }
+                        None => {
+                            vio("C04", "live-value-not-cloned", format!("clone_from(): a live value of {} was not cloned", W::archs()[ai].info().name));
+                            return;
+                        }
+                    }
+                }
+                if used != by_src.len() {
+                    vio("C04", "cloned-non-live-value", format!("clone_from(): {} values cloned, {} live cells in scope", by_src.len(), used));
+                    return;
+                }
+                self.stats.inc(if a.is_some() { "clone_from_archetype" } else { "clone_from_world_x" });
+            }
+            Err(c) => {
+                match c.injected {
+                    Some(Injected::Clone) => self.stats.inc("F2_clone_panic_in_clone_from"),
+                    Some(Injected::Drop) => self.stats.inc("F3_drop_panic_in_clone_from"),
+                    _ => {
+                        vio("C10", "unexpected-panic", format!("clone_from panicked: {}", c.msg));
+                        return;
+                    }
+                }
+                self.faulted = true;
+                for ai in scope.iter().copied() {
+                    let drv = W::archs()[ai];
+                    let obs = {
+                        let w = self.ws[dst].as_mut().unwrap();
+                        catch(|| drv.scan(w, SPATHS[0], None))
+                    };
+                    let rows: BTreeMap<Bits, Vec<Obs>> = match obs {
+                        Ok(Ok(r)) => {
+                            let n = r.len();
+                            let m: BTreeMap<Bits, Vec<Obs>> = r.into_iter().collect();
+                            if m.len() != n {
+                                vio("C10", "torn-state-after-panic", format!("{} after a panic inside clone_from: an entity is listed twice", drv.info().name));
+                                return;
+                            }
+                            m
+                        }
+                        Ok(Err(e)) => {
+                            vio("C10", "torn-state-after-panic", format!("{} after a panic inside clone_from: {}", drv.info().name, e));
+                            return;
+                        }
+                        Err(cc) => {
+                            vio("C10", "unusable-after-panic", format!("{} after a panic inside clone_from: reading it panicked: {}", drv.info().name, cc.msg));
+                            return;
+                        }
+                    };
+                    if rt::has_violation() {
+                        return;
+                    }
+                    let old_rows: BTreeMap<Bits, Vec<Obs>> = self.ms[dst].by_arch[ai].iter().map(|b| (*b, self.ms[dst].ents[b].cols.clone())).collect();
+                    let new_rows = mapped_rows(&self.ms[src], ai, &by_src);
+                    let is_old = rows == old_rows;
+                    let is_new = Some(&rows) == new_rows.as_ref();
+                    // both (same handles, no identified values: zero-sized columns): decide by what
+                    // else can be observed - capacity and, with hooks, the archetype version
+                    let fits = |e: &Self, m: usize| -> bool {
+                        let w = e.ws[dst].as_ref().unwrap();
+                        let am = &e.ms[m].archs[ai];
+                        drv.capacity(w) == am.cap && (!e.cfg.hooks || am.ver_obs == 0 || drv.dump(w).version as u64 == am.ver)
+                    };
+                    let prefer_new = c.injected == Some(Injected::Drop);
+                    let choice = match (is_old, is_new) {
+                        (true, false) => 0,
+                        (false, true) => 1,
+                        (true, true) => {
+                            let (fo, fnw) = (fits(self, dst), fits(self, src));
+                            if fo && fnw {
+                                if prefer_new { 1 } else { 0 }
+                            } else if fo {
+                                0
+                            } else if fnw {
+                                1
+                            } else {
+                                2
+                            }
+                        }
+                        (false, false) if rows.is_empty() => 2,
+                        _ => 3,
+                    };
+                    match choice {
+                        0 => self.stats.inc("clone_from_fault_left_old"),
+                        1 => {
+                            self.adopt_arch(dst, src, ai, new_rows);
+                            self.stats.inc("clone_from_fault_left_new");
+                        }
+                        2 if rows.is_empty() => {
+                            self.adopt_arch(dst, src, ai, None);
+                            self.stats.inc("clone_from_fault_left_empty");
+                        }
+                        _ => {
+                            vio("C10", "torn-state-after-panic", format!("{} after a panic inside clone_from is neither its old self, nor the source's clone, nor empty: it holds {:x?}", drv.info().name, rows.keys().collect::<Vec<_>>()));
+                            return;
+                        }
+                    }
+                }
+                // whatever is not part of the final state may have been leaked
+                let live: BTreeSet<(u8, u32)> = self.ms[dst].ents.values().flat_map(|r| r.cols.iter().map(|c| (c.kind, c.id))).collect();
+                for (k, _, nn) in &clone_log {
+                    if kind_has_id(*k) {
+                        if !live.contains(&(*k, *nn)) {
+                            self.leak_ok.insert((*k, *nn));
+                        }
+                    } else {
+                        self.leak_ok_noid[*k as usize] += 1;
+                    }
+                }
+                for (k, id) in &old_cells {
+                    if kind_has_id(*k) {
+                        if !live.contains(&(*k, *id)) {
+                            self.leak_ok.insert((*k, *id));
+                        }
+                    } else {
+                        self.leak_ok_noid[*k as usize] += 1;
+                    }
+                }
+            }
+        }
+        let save = self.cur;
+        self.cur = dst;
+        self.audit_step(true);
+        self.cur = save;
+    }
+
+    /// Archetype `ai` of world `dst` takes over the identity of the same archetype of `src`
+    /// (`rows`: the entities with the ids of the cloned values), or - `rows` = None - is empty
+    /// with nothing known about its counters.
+    fn adopt_arch(&mut self, dst: usize, src: usize, ai: usize, rows: Option<BTreeMap<Bits, Vec<Obs>>>) {
+        let aid = W::archs()[ai].info().id;
+        let of_arch = |b: &Bits| ((*b >> 32) & 0xFF) as u8 == aid;
+        let old: Vec<Bits> = self.ms[dst].by_arch[ai].iter().copied().collect();
+        for b in old {
+            self.ms[dst].ents.remove(&b);
+        }
+        self.ms[dst].by_arch[ai].clear();
+        self.ms[dst].issued.retain(|b| !of_arch(b));
+        self.ms[dst].wrapped.retain(|(x, _)| *x != ai);
+        match rows {
+            Some(rows) => {
+                let sm = self.ms[src].archs[ai].clone();
+                let issued: Vec<Bits> = self.ms[src].issued.iter().copied().filter(|b| of_arch(b)).collect();
+                let wrapped: Vec<(usize, u32)> = self.ms[src].wrapped.iter().copied().filter(|(x, _)| *x == ai).collect();
+                let m = &mut self.ms[dst];
+                m.archs[ai] = sm;
+                m.issued.extend(issued);
+                m.wrapped.extend(wrapped);
+                for (b, cols) in rows {
+                    m.ents.insert(b, Rec { arch: ai, cols });
+                    m.by_arch[ai].insert(b);
+                }
+                for e in self.book.iter_mut() {
+                    if arch_of_byte::<W>(e.arch_byte) == Some(ai) {
+                        e.natives.retain(|nv| nv.world != dst);
+                        if let Some(nv) = e.native_in(src) {
+                            e.natives.push(Native { world: dst, ..nv });
+                        }
+                    }
+                }
+            }
+            None => {
+                let w = self.ws[dst].as_ref().unwrap();
+                let cap = W::archs()[ai].capacity(w);
+                #[cfg(feature = "events")]
+                let (cev, dev) = (W::archs()[ai].created(w), W::archs()[ai].destroyed(w));
+                let am = &mut self.ms[dst].archs[ai];
+                am.len = 0;
+                am.cap = cap;
+                am.slot_gens.clear();
+                am.ver_obs = 0;
+                am.preset = true;
+                #[cfg(feature = "events")]
+                {
+                    am.created_ev = cev;
+                    am.destroyed_ev = dev;
+                }
+                for e in self.book.iter_mut() {
+                    if arch_of_byte::<W>(e.arch_byte) == Some(ai) {
+                        e.natives.retain(|nv| nv.world != dst);
+                    }
+                }
+            }
+        }
     }
 
     pub fn op_switch(&mut self, n: u8) {
@@ -799,6 +1082,7 @@ impl<W: WorldSpec> Engine<W> {
             Op::BulkDestroy { a, stride, phase } => self.op_bulk_destroy(*a, *stride, *phase),
             Op::Spawn { c } => self.op_spawn(*c),
             Op::CloneFrom { n } => self.op_clone_from(*n),
+            Op::CloneFromX { n, a, panic_at, dp } => self.op_clone_from_x(*n, *a, *panic_at, *dp),
         }
     }
 
